@@ -126,7 +126,7 @@ def run(ctx):
     for a in clr:
         ok = a.t.startswith("sources[") and a.v == "1"
         idx = a.t[len("sources["):a.t.index("]")] if ok else "?"
-        G = B.guard_formula(a.guards)
+        G = a.eff()
         ok = ok and B.equivalent(G, B.from_expr(f"self.pending.re & self.pending.r[{idx}]"))
         ctx.ob("V3", EV, "EventManager", "clear[i] = pending.re & pending.r[i]", ok,
                "" if ok else f"{a.t} <= {a.v} under {B.show(G)}: clearing one event can clear another / never clears", a.line)
@@ -195,7 +195,7 @@ def run(ctx):
     trg = fxg.find(domain="comb", target="esp.trigger")
     ctx.ob("V6", GPIO, "_GPIOIRQ", "trigger mux:present", len(trg) == 2, "expected a change-mode and an edge-mode driver", 0)
     for a in trg:
-        G = B.guard_formula(a.guards)
+        G = a.eff()
         if B.entails(G, B.A("self._mode.storage[n]")):
             ok = B.equivalent(B.from_expr(a.value), B.from_expr("in_pads[n] ^ in_pads_n_d"))
             ctx.ob("V6", GPIO, "_GPIOIRQ", "change mode: pad ^ delayed pad", ok, "" if ok else f"trigger <= {a.v}", a.line)
